@@ -134,6 +134,30 @@ def rule_narrow_convert(ctx: Ctx, prog: Program) -> None:
 
     ctx.rule("R-NARROW-CONVERT")
     n_checked = 0
+    # names and attributes that may hold NumPy integers (an array, or a list made from one): converting THOSE to a narrow type wraps,
+    # only Python ints are range-checked
+    NP_MAKERS = ("arange", "array", "asarray", "zeros", "ones", "empty", "full", "cumsum", "argsort", "concatenate", "linspace")
+    numpyish: set = set()
+    for _ in range(3):
+        for f_ in prog.all_functions():
+            if f_.njit or not (f_.module.startswith(f"{prog.package}.problems") or f_.module.startswith(f"{prog.package}.solvers")):
+                continue
+            for node in ast.walk(f_.node):
+                if not (isinstance(node, ast.Assign) and len(node.targets) == 1):
+                    continue
+                tgt_ = node.targets[0]
+                key = (f_.fq, tgt_.id) if isinstance(tgt_, ast.Name) else ("attr", tgt_.attr) if isinstance(tgt_, ast.Attribute) else None
+                if key is None:
+                    continue
+                vals = [node.value.body, node.value.orelse] if isinstance(node.value, ast.IfExp) else [node.value]
+                for v_ in vals:
+                    src_np = any(isinstance(x, ast.Call) and ast.unparse(x.func).split(".")[0] in ("np", "numpy") and ast.unparse(x.func).split(".")[-1] in NP_MAKERS
+                                 for x in ast.walk(v_))
+                    via = any((isinstance(x, ast.Name) and (f_.fq, x.id) in numpyish) or (isinstance(x, ast.Attribute) and ("attr", x.attr) in numpyish)
+                              for x in ast.walk(v_)) and not isinstance(v_, ast.Call)
+                    dt_ok = isinstance(v_, ast.Call) and any(kw.arg == "dtype" for kw in v_.keywords)  # an explicit (checked or reported) conversion
+                    if (src_np or via) and not dt_ok:
+                        numpyish.add(key)
     for m in prog.modules.values():
         if not (m.name.startswith(f"{prog.package}.problems") or m.name.startswith(f"{prog.package}.solvers")):
             continue
@@ -163,6 +187,13 @@ def rule_narrow_convert(ctx: Ctx, prog: Program) -> None:
                     continue
                 src = node.args[0] if node.args else None
                 from_array = isinstance(src, ast.Call) and ast.unparse(src.func).split(".")[-1] in ("array", "asarray", "arange", "zeros", "ones", "empty", "full")
+                np_src = (isinstance(src, ast.Name) and (f.fq, src.id) in numpyish) or (isinstance(src, ast.Attribute) and ("attr", src.attr) in numpyish)
+                if np_src:
+                    ctx.violation("R-NARROW-CONVERT", f.path, f.qualname, f"numpy-valued-source:{dt.split('.')[-1]}", f"{f.path}:{node.lineno}",
+                                  f"{f.qualname} builds a {dt} array from `{ast.unparse(src)}`, which may hold NumPy integers (it is built from np.arange / an "
+                                  "array somewhere in the package): only Python ints are range-checked by the constructor, NumPy integers are cast and "
+                                  "wrap silently -- a model beyond the type's range is accepted with indices aliased onto the first ones")
+                    continue
                 if from_array:
                     ctx.violation("R-NARROW-CONVERT", f.path, f.qualname, f"array-of-array:{dt.split('.')[-1]}", f"{f.path}:{node.lineno}",
                                   f"{f.qualname} builds a {dt} array from another array (`{ast.unparse(node)[:80]}`): array-to-array conversion wraps silently")
@@ -236,3 +267,43 @@ def rule_index_width(ctx: Ctx, prog: Program) -> None:
                           f"{name} is allocated as {dt} while the variable -> shared-domain table is {ref}: a shared-domain index that fits the table does "
                           f"not fit {name} and is stored modulo 2**bits -- the entry then designates another domain (for the replay records: the bound moved "
                           "by the alternative of a decision on domain 256 + k is announced to the watchers of domain k)")
+
+
+# ------------------------------------------------------------------------------------------ R-ERROR-PROPAGATES
+def rule_error_propagates(ctx: Ctx, prog: Program) -> None:
+    """The capacity error raised by solve_one ('The choice points stack is full') is the report the caller is entitled to.  Between solve_one
+    and the user it crosses a few Python-level methods; it is lost if one of them returns / breaks / continues from a `finally` block
+    (Python then discards the exception in flight) or catches IndexError / Exception / everything without re-raising.  Rule: in the solvers
+    package, no `finally` block contains return / break / continue, and no handler around a search call swallows the error."""
+    import ast
+
+    ctx.rule("R-ERROR-PROPAGATES")
+    n_try = n_bad = 0
+    for f in prog.all_functions():
+        if f.njit or not f.module.startswith(f"{prog.package}.solvers"):
+            continue
+        for t in [n for n in ast.walk(f.node) if isinstance(n, ast.Try)]:
+            n_try += 1
+            for st in t.finalbody:
+                for x in ast.walk(st):
+                    if isinstance(x, (ast.Return, ast.Break, ast.Continue)):
+                        n_bad += 1
+                        ctx.violation("R-ERROR-PROPAGATES", f.path, f.qualname, "exit-in-finally", f"{f.path}:{x.lineno}",
+                                      f"{f.qualname} leaves a `finally` block with `{ast.unparse(x)[:40]}`: Python discards the exception in flight, so the "
+                                      "'stack is full' IndexError raised by the search is swallowed and the current incumbent (or None) is returned as if it "
+                                      "were the answer")
+            searches = any(isinstance(x, ast.Call) and ast.unparse(x.func).split(".")[-1] in ("solve_one", "optimize", "solve", "minimize", "maximize", "find_all")
+                           for b in t.body for x in ast.walk(b))
+            if not searches:
+                continue
+            for h in t.handlers:
+                names = ast.unparse(h.type) if h.type is not None else ""
+                broad = h.type is None or any(k in names for k in ("IndexError", "LookupError", "Exception", "BaseException"))
+                reraises = any(isinstance(x, ast.Raise) for b in h.body for x in ast.walk(b))
+                if broad and not reraises:
+                    n_bad += 1
+                    ctx.violation("R-ERROR-PROPAGATES", f.path, f.qualname, "search-error-swallowed", f"{f.path}:{h.lineno}",
+                                  f"{f.qualname} catches `{names or 'everything'}` around a search call and does not re-raise: the 'stack is full' error never "
+                                  "reaches the caller")
+    if not n_bad:
+        ctx.ok("R-ERROR-PROPAGATES", "no finally block exits early and no handler swallows the error of a search call", sample={"try_statements": n_try})
